@@ -441,7 +441,15 @@ fn run_race<BS: BitmapSlice>(mk: impl Fn(u32) -> Cont<BS>) -> RunInfo {
             kind = 0; // writes through handed-out references are exempt from tracking
         }
         let fd_read = cx().a(4) == 0;
+        let again = cx().a(3) == 0;
+        let spec2 = ViewSpec { steps: spec.steps.clone(), off: spec.off, len: spec.len };
         prog.push((spec, kind, fd_read, cx().a(2) == 0));
+        if again {
+            // the same place is written again through another accessor (its page is dirty by then,
+            // unless a harvest got in between)
+            let k2 = [18u32, 18, 8, 6, 0][cx().a(5) as usize];
+            prog.push((spec2, k2, false, false));
+        }
     }
     // now and then a second writer thread issues plain buffer writes on the same container (two
     // markers may then meet on one bitmap word)
